@@ -61,6 +61,13 @@ pub fn dispatch(k: &str, t: &[&str]) -> Option<String> {
             let codec = if t[0] == "Add" { Codec::new(vec![CodecOp::Add(e, y)], vec![e]) } else { Codec::new(vec![CodecOp::ToI64(e)], vec![e]) };
             Some(format!("{}", codec.encode_int(c)))
         }
+        "codec_encode_float" => {
+            let e = et(t[1]);
+            let y: i64 = num(t[2]);
+            let c = f64::from_bits(num::<u64>(t[3]));
+            let codec = if t[0] == "Add" { Codec::new(vec![CodecOp::Add(e, y)], vec![e]) } else { Codec::new(vec![CodecOp::ToI64(e)], vec![e]) };
+            Some(format!("{}", codec.encode_float(c).to_bits()))
+        }
         "column_decode_str" => {
             use crate::stringpack::{IndexedPackedStrings, PackedStrings};
             let kind = t[0];
